@@ -23,7 +23,8 @@ RULE = (
     "connection closed before the offset -- the client re-queues the upload from inside its negotiation task and "
     "has to start it again, possibly with nothing else happening afterwards), initial "
     "slot limit 0..4, upload bandwidth 1..4 KiB/s (uploads last 0.1..6 s of virtual time) and a history of <= 14 "
-    "events: queue request (PeerTransferQueue from user u for file f; also re-queues COMPLETE/FAILED uploads), wait "
+    "events: queue request (PeerTransferQueue from user u for file f; also re-queues COMPLETE/FAILED uploads), a "
+    "repeated request for a file whose upload has ended (preferably of a user being served with another file), wait "
     "until the k-th active upload finishes, failure (downloader closes / resets the file connection), refusal "
     "(downloader answers allowed=False), abort / pause / queue through client.transfers, status change "
     "(GetUserStatus.Response), privilege list / AddPrivilegedUser, friend list change, limit change "
@@ -87,8 +88,15 @@ SPEEDS = [1, 2, 4]
 # TransferLimitSettings(upload_slots=n) | settings.transfers = <copy of the section with new limits> (all three are
 # plain validated assignments on the settings model; the oracle always reads client.settings...upload_slots)
 LIMIT_HOW = ['attribute', 'limits-section', 'transfers-section']
+# abort / pause of an active upload with a slow teardown: the close of its file connection is only confirmed
+# (connection_lost) after this many seconds, so the transition holds the state lock over several management
+# intervals while the upload is still UPLOADING; the call then runs beside the following events, and optionally the
+# server announces some status (= a management cycle is requested) this long after the call
+SLOW_CLOSE = [0.0, 0.1, 0.3, 0.5]
+POKE_AT = [None, 0.02, 0.06, 0.15]
+TOLD_MARGIN = 0.010     # a server message counts as known to the client when it was sent >= 10 ms before a decision
 OPS = ['queue', 'adv', 'finish', 'fail', 'refuse', 'abort', 'pause', 'requeue', 'status', 'privs', 'addpriv',
-       'friend', 'limit']
+       'friend', 'limit', 'rerequest']
 MAX_EVENTS = 14
 QUIET = 30.0            # virtual seconds without external events before liveness is judged ...
 DRAIN_ROUNDS = 50       # ... then up to 50 further windows of 2 s while uploads are still active / look stuck
@@ -112,9 +120,15 @@ def _event():
         st.builds(lambda a: {'op': 'finish', 'k': a}, k),
         st.builds(lambda a, b: {'op': 'fail', 'k': a, 'reset': b}, k, st.booleans()),
         st.builds(lambda a, b: {'op': 'refuse', 'u': a, 'on': b}, u, st.booleans()),
-        st.builds(lambda a: {'op': 'abort', 'k': a}, k),
-        st.builds(lambda a: {'op': 'pause', 'k': a}, k),
+        st.builds(lambda a, sl, pk: {'op': 'abort', 'k': a, 'slow': sl, 'poke_at': pk}, k,
+                  st.sampled_from([0, 0, 1, 2, 3]), st.integers(0, len(POKE_AT) - 1)),
+        st.builds(lambda a, sl, pk: {'op': 'abort', 'k': a, 'slow': sl, 'poke_at': pk}, k,
+                  st.sampled_from([0, 0, 1, 2, 3]), st.integers(0, len(POKE_AT) - 1)),
+        st.builds(lambda a, sl, pk: {'op': 'pause', 'k': a, 'slow': sl, 'poke_at': pk}, k,
+                  st.sampled_from([0, 0, 1, 2, 3]), st.integers(0, len(POKE_AT) - 1)),
         st.builds(lambda a: {'op': 'requeue', 'k': a}, k),
+        st.builds(lambda a: {'op': 'rerequest', 'k': a}, k),
+        st.builds(lambda a: {'op': 'rerequest', 'k': a}, k),
         st.builds(lambda a, b: {'op': 'status', 'u': a, 's': b}, u, st.integers(0, 2)),
         st.builds(lambda a: {'op': 'privs', 'mask': a}, st.integers(0, 31)),
         st.builds(lambda a: {'op': 'addpriv', 'u': a}, u),
@@ -190,7 +204,10 @@ def _sanitise(case):
             ev['u'] = _int(e.get('u'), 0, 4) % len(users)
         if op == 'queue':
             ev['f'] = _int(e.get('f'), 0, 2) % len(sizes)
-        if op in ('finish', 'fail', 'abort', 'pause', 'requeue'):
+        if op in ('abort', 'pause'):
+            ev['slow'] = _int(e.get('slow'), 0, len(SLOW_CLOSE) - 1)
+            ev['poke_at'] = _int(e.get('poke_at'), 0, len(POKE_AT) - 1)
+        if op in ('finish', 'fail', 'abort', 'pause', 'requeue', 'rerequest'):
             ev['k'] = _int(e.get('k'), 0, 7)
         if op == 'fail':
             ev['reset'] = bool(e.get('reset'))
@@ -353,7 +370,8 @@ class Observer:
         names = sorted({k[0] for k in self.uploads})
         users = {n: self.user_info(n) for n in names}
         limit = self.client.settings.transfers.limits.upload_slots
-        snap = {'seq': self.seq, 'time': self.now(), 'limit': limit, 'states': states, 'users': users, 'started': []}
+        snap = {'seq': self.seq, 'time': self.now(), 't': self.loop.time(), 'limit': limit, 'states': states,
+                'users': users, 'started': []}
         self.cycles.append(snap)
         active_users = {k[0] for k, s in states.items() if s in ACTIVE}
         eligible = {k[0] for k, s in states.items()
@@ -377,6 +395,7 @@ class Observer:
         if not snap['started']:
             return
         touched = {key[0] for seq, _, key, _, _ in self.trans if seq > snap['seq']}
+        snap['touched'] = touched
         for key in snap['started']:
             a = key[0]
             ca = _user_class(snap['users'][a])
@@ -390,6 +409,112 @@ class Observer:
                         f'cycle at t={snap["time"]} (limit {snap["limit"]}, free {snap["free"]}) started {_short(key)} of '
                         f'{a}{snap["users"][a]} while eligible {b}{snap["users"][b]} kept all its uploads QUEUED; '
                         f'states={ {k[0] + "/" + k[1][-6:]: s for k, s in snap["states"].items()} }')
+
+    # -- second source of truth: what the server has told the client ----------------
+    def check_told(self, told, frames):
+        """Judge every decision that started an upload against what the simulated server had TOLD the client about
+        the users (status: AddUser.Response / GetUserStatus.Response while the client tracked the user; privilege:
+        PrivilegedUsers / AddPrivilegedUser / GetUserStatus.Response), counting only messages sent at least
+        TOLD_MARGIN before the decision and giving no verdict while anything newer is in flight or the tracking of
+        the user started / ended around the decision. Catches defects in how the client acquires its knowledge, which
+        the oracle on the client's own objects cannot see."""
+        M = simworld.M()
+        status_told: dict = {}     # user -> [(t, status name)]
+        priv_told: dict = {}       # user -> [(t, bool)]
+        track: dict = {}           # user -> [(t, 'add' | 'remove')]
+        names = sorted({k[0] for k in self.uploads})
+        code = {0: 'OFFLINE', 1: 'AWAY', 2: 'ONLINE'}
+        for t, msg in told:
+            if isinstance(msg, M.AddUser.Response):
+                if msg.exists and msg.status in code:
+                    status_told.setdefault(msg.username, []).append((t, code[msg.status]))
+            elif isinstance(msg, M.GetUserStatus.Response):
+                if msg.status in code:
+                    status_told.setdefault(msg.username, []).append((t, code[msg.status]))
+                priv_told.setdefault(msg.username, []).append((t, bool(msg.privileged)))
+            elif isinstance(msg, M.PrivilegedUsers.Response):
+                for n in names:
+                    priv_told.setdefault(n, []).append((t, n in msg.users))
+            elif isinstance(msg, M.AddPrivilegedUser.Response):
+                priv_told.setdefault(msg.username, []).append((t, True))
+        for t, _, msg in frames:
+            if isinstance(msg, M.AddUser.Request):
+                track.setdefault(msg.username, []).append((t, 'add'))
+            elif isinstance(msg, M.RemoveUser.Request):
+                track.setdefault(msg.username, []).append((t, 'remove'))
+
+        def status_at(u, d):
+            msgs = [m for m in status_told.get(u, []) if m[0] <= d]
+            if not msgs:
+                return 'UNKNOWN'                      # never told anything: the client cannot know a status
+            start = None
+            for t, what in track.get(u, []):
+                if t > d + TOLD_MARGIN:
+                    break
+                if what == 'add':
+                    if start is None:
+                        start = t
+                else:
+                    start = None
+            if start is None or start > d - TOLD_MARGIN:
+                return None                           # not (yet / any more) tracked around the decision
+            if any(start - TOLD_MARGIN <= t < start for t, _ in msgs):
+                return None                           # told while the tracking was being set up
+            inside = [m for m in msgs if m[0] >= start]
+            if not inside:
+                return 'UNKNOWN'
+            if inside[-1][0] > d - TOLD_MARGIN:
+                return None                           # newest message still in flight / just arrived
+            return inside[-1][1]
+
+        def priv_at(u, d):
+            msgs = [m for m in priv_told.get(u, []) if m[0] <= d]
+            if not msgs:
+                return False
+            if msgs[-1][0] > d - TOLD_MARGIN:
+                return None
+            return msgs[-1][1]
+
+        def class_at(u, d, friend):
+            st_, pv = status_at(u, d), priv_at(u, d)
+            if st_ is None or pv is None:
+                return None
+            return _user_class((st_, pv, friend))
+
+        for snap in self.cycles:
+            d = snap['t']
+            # consistency of the two sources (evidence only): determinate told status vs the client's object
+            for n, info in snap['users'].items():
+                ts = status_at(n, d)
+                if ts is not None and ts != info[0]:
+                    self.res.label('told-differs-from-client-knowledge')
+            for key in snap['started']:
+                a = key[0]
+                if status_at(a, d) == 'OFFLINE':
+                    self.violate('C05/offline-user-started:told-by-server',
+                                 f'upload {_short(key)} was started by the cycle at t={snap["time"]} although the last '
+                                 f'thing the server had told about {a} (>= {TOLD_MARGIN} s earlier, user tracked, nothing '
+                                 f'newer in flight) was OFFLINE; the client held {snap["users"][a]}; told='
+                                 f'{[(round(t - 1000.0, 4), v) for t, v in status_told.get(a, [])]}')
+                ca_client = _user_class(snap['users'][a])
+                ca = class_at(a, d, snap['users'][a][2])
+                if ca is None:
+                    continue
+                for b in snap['eligible']:
+                    if b == a or b in snap.get('touched', ()):
+                        continue
+                    if _user_class(snap['users'][b]) > ca_client:
+                        continue                      # already reported from the client's own knowledge
+                    if status_at(b, d) == 'OFFLINE':
+                        continue
+                    cb = class_at(b, d, snap['users'][b][2])
+                    if cb is not None and cb > ca:
+                        self.violate(
+                            f'C05/priority-inverted:told-by-server:{CLASS_NAMES[ca]}-before-{CLASS_NAMES[cb]}',
+                            f'cycle at t={snap["time"]} (limit {snap["limit"]}, free {snap["free"]}) started '
+                            f'{_short(key)} of {a} while eligible {b} kept all its uploads QUEUED; by what the server '
+                            f'had told, {a} is {CLASS_NAMES[ca]} and {b} is {CLASS_NAMES[cb]}; the client held '
+                            f'{a}{snap["users"][a]} {b}{snap["users"][b]}')
 
     # -- invariants (every notification, every driver step) ---------------------
     def check_now(self, where):
@@ -439,6 +564,33 @@ class Observer:
             return []
         return sorted(k for k, s in states.items()
                       if s == 'QUEUED' and k[0] not in active_users and self.user_info(k[0])[0] != 'OFFLINE')
+
+
+def _slow_file_close(down, path, delay):
+    """Make the client's side of the open file connection of this upload slow to close: is_closing() is true and the
+    FIN leaves at once, connection_lost (what StreamWriter.wait_closed waits for) comes after ``delay`` seconds."""
+    atts = [a for a in down.by_path.get(path, []) if a.file_link is not None and not a.closed]
+    if not atts:
+        return False
+    ep = atts[-1].file_link.ep
+    tr = ep.link.sides[1 - ep.index]
+    if not hasattr(tr, '_protocol') or tr.dead or tr.is_closing():
+        return False
+
+    def close():
+        if tr._closing:
+            return
+        tr._closing = True
+        tr._link.side_closed(tr._index)
+
+        def lost():
+            if not tr._lost:
+                tr._lost = True
+                tr._protocol.connection_lost(None)
+        tr._loop.call_later(delay, lost)
+    tr.close = close
+    tr.abort = close
+    return True
 
 
 def _install_flaw(world, down, flaw, res):
@@ -532,6 +684,13 @@ def run_case(case) -> CaseResult:
             answered[n] = u['status'] != 'unknown'
         world.server.add_user_behaviour = \
             lambda username, attempt: None if answered.get(username, True) else 'silent'
+        told: list = []     # (virtual time the message leaves the server, message): everything the server tells
+
+        def send_recorded(msg, session=-1, delay=0.0, _send=world.server.send):
+            if not isinstance(msg, (bytes, bytearray)):
+                told.append((loop.time() + (delay or world.server.reply_delay or 0.0), msg))
+            return _send(msg, session, delay)
+        world.server.send = send_recorded
         world.server.post_login = [M.PrivilegedUsers.Response(users=[n for n, u in zip(names, c['users']) if u['priv']])]
 
         client = await world.start_client(settings)
@@ -565,6 +724,18 @@ def run_case(case) -> CaseResult:
             if not link.messages:
                 link.ep.close()
 
+        def send_queue(uidx, path):
+            down = downs[names[uidx]]
+            if c['users'][uidx]['link']:
+                # a fresh connection per request, closed right after it (connections opened by the client, on
+                # which replies to its PeerTransferRequests travel, are left alone)
+                link = down.queue(path, link=down.peer.connect('P'))
+                loop.call_later(0.004, close_if_unused, link)
+            else:
+                down.queue(path)
+
+        pending_calls: list = []
+
         async def user_call(api, transfer):
             try:
                 await getattr(client.transfers, api)(transfer)
@@ -577,14 +748,17 @@ def run_case(case) -> CaseResult:
         for ev in c['events']:
             op = ev['op']
             if op == 'queue':
-                down = downs[names[ev['u']]]
-                if c['users'][ev['u']]['link']:
-                    # a fresh connection per request, closed right after it (connections opened by the client, on
-                    # which replies to its PeerTransferRequests travel, are left alone)
-                    link = down.queue(paths[ev['f']], link=down.peer.connect('P'))
-                    loop.call_later(0.004, close_if_unused, link)
-                else:
-                    down.queue(paths[ev['f']])
+                send_queue(ev['u'], paths[ev['f']])
+            elif op == 'rerequest':
+                # the downloader asks again for a file whose upload has ended (COMPLETE / FAILED are put back in
+                # the queue), preferably one of a user who is being served with another file right now
+                ended = [k for k in obs.uploads if obs.state_of(k) in ('COMPLETE', 'FAILED')]
+                served = {k[0] for k in obs.active_keys()}
+                ended = [k for k in ended if k[0] in served] or ended
+                if ended:
+                    key = ended[ev['k'] % len(ended)]
+                    send_queue(names.index(key[0]), key[1])
+                    res.label('rerequest:served-user' if key[0] in served else 'rerequest:idle-user')
             elif op == 'adv':
                 await asyncio.sleep(DTS[ev['dt']])
             elif op == 'finish':
@@ -617,11 +791,21 @@ def run_case(case) -> CaseResult:
                 downs[names[ev['u']]].allow = not ev['on']
             elif op in ('abort', 'pause', 'requeue'):
                 keys = list(obs.uploads)
+                if op != 'requeue' and SLOW_CLOSE[ev['slow']] > 0:
+                    # a slow teardown needs something to tear down: address the active uploads when there are any
+                    keys = [k for k in keys if obs.state_of(k) == 'UPLOADING'] or obs.active_keys() or keys
                 if keys:
                     transfer = obs.uploads[keys[ev['k'] % len(keys)]]
                     if op == 'requeue' and transfer.state.VALUE.name == 'INITIALIZING':
                         # outside the documented domain of TransferManager.queue (see ASSUMPTIONS)
                         res.label('call:queue:skipped-initializing')
+                    elif op != 'requeue' and SLOW_CLOSE[ev['slow']] > 0:
+                        key = (transfer.username, transfer.remote_path)
+                        if _slow_file_close(downs[key[0]], key[1], SLOW_CLOSE[ev['slow']]):
+                            res.label('slow-teardown:file-connection')
+                        pending_calls.append(asyncio.ensure_future(user_call(op, transfer)))
+                        if POKE_AT[ev['poke_at']] is not None:
+                            loop.call_later(POKE_AT[ev['poke_at']], poke)
                     else:
                         await user_call('queue' if op == 'requeue' else op, transfer)
             elif op == 'status':
@@ -665,6 +849,8 @@ def run_case(case) -> CaseResult:
             obs.check_now(f'step {op}')
             obs.check_requests(downs)
 
+        if pending_calls:
+            await asyncio.wait(pending_calls, timeout=30.0)
         # ---- quiet period, bounded liveness ------------------------------------
         t_quiet = loop.time()
         await asyncio.sleep(QUIET)
@@ -699,6 +885,7 @@ def run_case(case) -> CaseResult:
         obs.check_now('end of run')
         obs._close_batch()
         obs.check_requests(downs)
+        obs.check_told(told, world.server.frames)
         out['final_states'] = {k: obs.state_of(k) for k in obs.uploads}
         await client.stop()
 
